@@ -3,8 +3,8 @@ from verif import Case
 from gen_util import *
 import pyref, pyhdr
 
-MODULES = ["WowSrp.Props.C12", "WowSrp.Props.C12Wrath", "WowSrp.Props.Source.Structural.C12", "WowSrp.Props.Session", "WowSrp.Props.Source.Facade", "WowSrp.Props.Source.Glue.Vanilla", "WowSrp.Props.Source.Glue.Tbc", "WowSrp.Props.Source.Glue.Wrath", "WowSrp.Props.Source.Shape.HeaderMods"]
-THEOREMS = ["C12_step_projection", "C12_interleaving", "C12_interleaving_fresh", "C12_interleaving_wrath_client", "C12_interleaving_wrath_server", "C12_no_shared_state", "C12_no_shared_state_wrath", "C12_pair_is_two_fields", "C12_unsplit_iff", "C12_unsplit_refused_iff", "C12_unsplit_result", "C12_split_unsplit", "C12_unsplit_differ", "C12_unsplit_one_byte", "C12_isPairOf_symm", "C12_unsplit_own_halves", "C12_static_facts", "C12_no_shared_state_wrath_facade", "C12_source_structural_impls", "Session_form_independent", "Session_comb_eq_halves", "Session_wcli_eq_halves", "Session_wsrv_eq_halves", "Session_encrypt_side", "Session_encrypt_concat_vt", "C12_source_facade_delegates", "C12_no_shared_state_io", "Session_form_independent_except_unsplit", "Session_comb_eq_halves_except_unsplit", "Session_decrypt_side", "Session_decrypt_side_indep", "C12_source_glue_vanilla", "C12_source_glue_tbc", "C12_source_glue_wrath", "C12_source_shape_headermods"]
+MODULES = ["WowSrp.Props.C12", "WowSrp.Props.C12Wrath", "WowSrp.Props.Source.Structural.C12", "WowSrp.Props.Session", "WowSrp.Props.Source.Facade", "WowSrp.Props.Source.Glue.Vanilla", "WowSrp.Props.Source.Glue.Tbc", "WowSrp.Props.Source.Glue.Wrath", "WowSrp.Props.Source.Shape.C12"]
+THEOREMS = ["C12_step_projection", "C12_interleaving", "C12_interleaving_fresh", "C12_interleaving_wrath_client", "C12_interleaving_wrath_server", "C12_no_shared_state", "C12_no_shared_state_wrath", "C12_pair_is_two_fields", "C12_unsplit_iff", "C12_unsplit_refused_iff", "C12_unsplit_result", "C12_split_unsplit", "C12_unsplit_differ", "C12_unsplit_one_byte", "C12_isPairOf_symm", "C12_unsplit_own_halves", "C12_static_facts", "C12_no_shared_state_wrath_facade", "C12_source_structural_impls", "Session_form_independent", "Session_comb_eq_halves", "Session_wcli_eq_halves", "Session_wsrv_eq_halves", "Session_encrypt_side", "Session_encrypt_concat_vt", "C12_source_facade_delegates", "C12_no_shared_state_io", "Session_form_independent_except_unsplit", "Session_comb_eq_halves_except_unsplit", "Session_decrypt_side", "Session_decrypt_side_indep", "C12_source_glue_vanilla", "C12_source_glue_tbc", "C12_source_glue_wrath", "C12_source_shapes"]
 RULE = ("random op lists over {encrypt chunk, decrypt chunk, split, clone-and-continue-on-the-clone, unsplit (Vanilla)} on the real combined objects "
         "of all three expansions, compared per direction with an independent simulation of two single-direction ciphers; Vanilla re-joining / pair test "
         "over key pairs that are equal, differ in exactly one byte at each of the 40 positions, or are unrelated; the two halves moved to two OS threads "
